@@ -3009,6 +3009,18 @@ coap_handle_request_put_block(coap_context_t *context,
   saved_num = block.num;
   saved_offset = offset;
 
+  if (!block.bert && block.szx > lg_srcv->szx) {
+    /*
+     * rec_blocks is tracked in units of lg_srcv->szx.  A first block that is
+     * larger than the maximum block size of this server is answered with the
+     * smaller size and the client continues in that unit, so record this
+     * payload as the blocks of that size that it covers.
+     */
+    block.num <<= block.szx - lg_srcv->szx;
+    block.szx = lg_srcv->szx;
+    chunk = (size_t)1 << (block.szx + 4);
+  }
+
   while (offset < saved_offset + length) {
     if (!check_if_received_block(&lg_srcv->rec_blocks, block.num)) {
       /* Update list of blocks received */
